@@ -18,7 +18,7 @@ A_IDX3 = ["[C]", "[=C]", "[Ring3]", "[Branch3]", "[=Branch2]", "[Ring2]", "[N]",
 def run(rep, tier, seed, budget):
     ctx = Ctx.get()
     quick = tier == "quick"
-    total = budget or (95 if quick else 1800)
+    total = budget or (120 if quick else 1800)
     t_end = time.time() + total
     lemmas.state_lemmas(ctx, rep, equalities=True)
     lemmas.crosshair_state_lemmas(ctx, rep)
